@@ -247,11 +247,11 @@ CHECKS['C14'] = dict(
     evidence=c14_evidence, post=c14_post,
     rule='enumeration: every public function of every lockable container (method tables extracted from the public headers; uncovered ones are listed) x every argument/outcome variant '
          '(success, NULL/zero-size argument, present/missing key, every index in [-n-2,n+2] for n<=7 and 11 representative indexes for n=40, empty, full, NULL stream, unwritable path) '
-         'x states n in {0,1,2,7,40} x entry depth {0,1} x (no fault | the k-th allocation of the call failing, k=1..K measured by a dry run, single failure and all-subsequent failure). '
+         'x states n in {0,1,2,7,40} x entry depth {0,1} x (no fault | the k-th allocation of the call failing, k=1..K measured by a dry run, single failure and all-subsequent failure); plus, per container, a contention scenario in which a waiter exhausts its lock-wait budget (forced-unlock fallback) while the holder is inside lock()..unlock(). '
          'evaluation = one monitored call; oracle = per-thread lock depth from the trylock/unlock interposers equal before/after, plus a probe thread whose single trylock must succeed. '
          'distinct = distinct (function, outcome class, fault mode, state, entry depth) tuples.',
     exhaustive=True,
-    require=['calls_lock_balanced', 'fault_positions_injected', 'probe_trylocks'],
+    require=['calls_lock_balanced', 'fault_positions_injected', 'probe_trylocks', 'contention_scenarios'],
     assumptions=['qLibc takes container locks only through pthread_mutex_trylock/unlock (Q_MUTEX_ENTER/LEAVE), which are interposed at link time',
                  'allocation failures are injected through the malloc/calloc/realloc/strdup interposers (errno=ENOMEM)',
                  'the outcome-variant table in h_lock.c is complete for the listed functions'])
@@ -287,7 +287,7 @@ def c13_jobs(tier, seed):
     t = tier == 'thorough'
     W = ('alloc', 'lock')
     return [
-        Job('h_conc', 'plain', wraps=W, tag='conc-controlled', args=['--mode', 'controlled', '--cases', '1120' if t else '224', '--budget', '60000' if t else '3000']),
+        Job('h_conc', 'plain', wraps=W, tag='conc-controlled', args=['--mode', 'controlled', '--cases', '448' if t else '224', '--budget', '20000' if t else '3000']),
         Job('h_conc', 'plain', wraps=W, tag='conc-stress', args=['--mode', 'stress', '--cases', '4480' if t else '560']),
         Job('h_conc', 'tsan', wraps=W, tag='conc-tsan', shards=8, args=['--mode', 'stress', '--cases', '1120' if t else '168']),
     ]
